@@ -15,18 +15,31 @@ ASSUMPTIONS = [
     "delivery model: per-channel FIFO interleavings (sleep-set reduced) on the pair, canonical schedule on 3-variable graphs in quick",
 ]
 BOUNDS = {
-    "quick": "pair (domain 2 and 3, all schedules), chain-3 and triangle (domain 2, canonical schedule); max_distance in {d, d+1}; <= 8 cycles",
+    "quick": "pair (domain 2 and 3, all schedules), chain-3 and triangle (domain 2, canonical schedule); max_distance in {d, d+1}; <= 8 cycles; ring of 7 variables (diameter 3) with pinned hard tables (2-colouring; one different edge), all 128 initial assignments, ties broken by the first best value, canonical schedule, <= 40 cycles",
     "thorough": "quick + chain-3 and triangle with all schedules (domain 2), triangle domain 3 canonical schedule, triangle+pendant (4 computations) with pinned hard tables, free initial values and every interleaving of the deliveries to the hub, 3 cycles",
 }
-OUTSIDE = "more than 3 variables, domains above 3, finishes after the 8th cycle, max_distance below the diameter"
+OUTSIDE = "more than 4 variables with symbolic tables (the ring of 7 has pinned tables and scripted ties), domains above 3, finishes after the cycle bound, max_distance below the diameter"
 CAP_S = {"quick": 1200, "thorough": 18000}
-DIAM = {"pair": 1, "chain3": 2, "triangle": 1, "tri_pendant": 2}
+DIAM = {"pair": 1, "chain3": 2, "triangle": 1, "tri_pendant": 2, "ring7": 3}
 INFV = 10000
 # hard tables of a satisfiable CSP on the triangle-with-pendant graph: x != w, not(x=0 and y=1), not(x=0 and z=1), y != z
 HARD4 = {"c3_00": INFV, "c3_01": 0, "c3_10": 0, "c3_11": INFV,
          "c0_00": 0, "c0_01": INFV, "c0_10": 0, "c0_11": 0,
          "c1_00": 0, "c1_01": INFV, "c1_10": 0, "c1_11": 0,
          "c2_00": INFV, "c2_01": 0, "c2_10": 0, "c2_11": INFV}
+
+
+def _ring7(kind):
+    """Pinned hard tables on the ring of 7 variables: 2-colouring (unsatisfiable: nobody may ever finish) or all-equal
+    except one 'different' edge (satisfiable)."""
+    pins = {}
+    for i in range(7):
+        eq_is_bad = kind == "2col" or i == 0
+        for a in range(2):
+            for b in range(2):
+                bad = (a == b) if eq_is_bad else (a != b)
+                pins["c%d_%d%d" % (i, a, b)] = INFV if bad else 0
+    return pins
 
 
 def jobs(tier):
@@ -36,6 +49,12 @@ def jobs(tier):
         {"name": "chain3-d2-fixed", "spec": spec("chain3", "min"), "fixed": True},
         {"name": "triangle-d2-fixed", "spec": spec("triangle", "min"), "fixed": True},
     ]
+    # long cycle (7 computations, diameter 3): pinned hard tables, the 7 initial values free, later ties broken by the first
+    # best value, canonical schedule, max_distance in {3, 4}
+    out.append({"name": "ring7-2col-fixed", "spec": spec("ring7", "min", pins=_ring7("2col")), "fixed": True, "cycles": 40,
+                "free_choices": 7, "steps": 6000})
+    out.append({"name": "ring7-mixed-fixed", "spec": spec("ring7", "min", pins=_ring7("mixed")), "fixed": True, "cycles": 40,
+                "free_choices": 7, "steps": 6000})
     if tier == "thorough":
         out += [
             {"name": "chain3-d2-allsched", "spec": spec("chain3", "min"), "fixed": False},
@@ -50,7 +69,8 @@ def jobs(tier):
 
 
 def run(eng, p):
-    begin(eng, random_modules=["pydcop.algorithms.dba", "pydcop.infrastructure.computations"])
+    rnd = begin(eng, random_modules=["pydcop.algorithms.dba", "pydcop.infrastructure.computations"])
+    rnd.free_choices = p.get("free_choices")
     INF = 10000
     inst = Instance(eng, p["spec"], lo=0, hi=2 * INF)
     d = DIAM[p["spec"]["name"]]
@@ -69,7 +89,7 @@ def run(eng, p):
     bench.on_finished = on_finished
     try:
         bench.start_all()
-        status = bench.run(max_steps=400, stop=lambda: any(c.cycle_count >= p.get("cycles", 8) for c in comps))
+        status = bench.run(max_steps=p.get("steps", 400), stop=lambda: any(c.cycle_count >= p.get("cycles", 8) for c in comps))
     except Exception as e:
         eng.notes["outcome"] = {"exc": str(e)}
         eng.fail("exception %s: %s" % (type(e).__name__, e), detail=traceback.format_exc(limit=-4))
